@@ -212,6 +212,8 @@ class Simulation:
                  fault_cfg: dict | None = None, record_unscoped: bool = False, focus_paths: tuple = (),
                  ftape: Tape | None = None):
         self.root = root.rstrip("/")
+        self.root_real = _real_realpath(self.root)
+        self._has_links = False  # set by checks whose layouts contain symlinks (C19)
         self.tape = tape  # scheduling decisions
         self.ftape = ftape or tape  # fault decisions (separate so a fault plan can be made explicit)
         self.fired: list[dict] = []
@@ -246,6 +248,8 @@ class Simulation:
         self.step_capped = False
         self.unlink_faulted: set = set()
         self.entropy_counter = 0
+        self.outside_mutations: list = []
+        self.claims_outside = False  # set by checks that judge outside_mutations themselves
         self.vtime = 0.0  # simulated seconds: the only clock code under test can read through `time`
         self.sleeps = 0
 
@@ -276,6 +280,8 @@ class Simulation:
             got = list(FOREIGN_BYPASS)
             FOREIGN_BYPASS.clear()
             raise HarnessError(f"file operations on the sandbox from a helper thread the seam does not own: {got[:3]}")
+        if self.outside_mutations and not self.claims_outside:
+            raise HarnessError(f"code under test tried to change files outside the sandbox (refused): {self.outside_mutations[:3]}")
 
     def _run(self):
         for a in self.actors:
@@ -620,12 +626,13 @@ class Simulation:
             if not scoped:
                 if a.dead:
                     raise SimKilled()
+                nm = name
+                if name == "open":
+                    fl = args[1] if len(args) > 1 else kw.get("flags", 0)
+                    nm = "open:" + ("w" if fl & (os.O_WRONLY | os.O_RDWR | os.O_CREAT | os.O_TRUNC) else "r")
                 if self.record_unscoped:
-                    nm = name
-                    if name == "open":
-                        fl = args[1] if len(args) > 1 else kw.get("flags", 0)
-                        nm = "open:" + ("w" if fl & (os.O_WRONLY | os.O_RDWR | os.O_CREAT | os.O_TRUNC) else "r")
                     self.unscoped.append((a.id, nm, path, path2))
+                self._jail(a, nm, path)
                 return fn(*args, **kw)
             if name == "open":
                 flags = args[1] if len(args) > 1 else kw.get("flags", 0)
@@ -635,6 +642,15 @@ class Simulation:
             if name == "stat" and kw.get("follow_symlinks") is False:
                 opname = "lstat"
 
+        if fd is None and OP_CLASS.get(opname) in MUTATING_CLASSES and ("/../" in path or path.endswith("/..") or self._has_links):
+            # lexically inside the root is not enough: '..' (or a link the layout contains) may lead out of it
+            try:
+                real_parent = _real_realpath(os.path.dirname(path.rstrip("/")) or "/")
+            except (OSError, ValueError):
+                real_parent = None
+            if real_parent is not None and not (real_parent == self.root_real or real_parent.startswith(self.root_real + "/")):
+                self.outside_mutations.append((a.id, opname, path))
+                raise PermissionError(_errno.EACCES, "simulator jail: write outside the sandbox refused", path)
         op = Op(a.id, a.op_count, opname, path, path2, fd, detail)
         a.op_count += 1
         kind, en = self.yield_point(a, op)
@@ -841,6 +857,20 @@ class Simulation:
         op.outcome = "ok"
         return None
 
+    # ------------------------------------------------------------------ jail
+    _JAIL_MUTATING = {"mkdir", "rmdir", "replace", "rename", "unlink", "remove", "chmod", "truncate", "symlink", "link", "utime", "open:w"}
+
+    def _jail(self, a: Actor, opname: str, path: str):
+        """Code under test must not change anything outside the run's root: such an operation is REFUSED (EACCES) and recorded.
+        Nothing lands on the real machine; the check decides whether it is a violation (C17 inert calls, C19 confinement) --
+        if it does not claim the record, the run ends as a harness error."""
+        if opname not in self._JAIL_MUTATING and not (opname.startswith("open:") and any(c in opname[5:] for c in "wax+")):
+            return
+        if path in ("/dev/null", "/dev/tty") or path.startswith(("/proc/self/", "/dev/fd/")):
+            return
+        self.outside_mutations.append((a.id, opname, path))
+        raise PermissionError(_errno.EACCES, "simulator jail: write outside the sandbox refused", path)
+
     # ------------------------------------------------------------------ time seam
     def clock_read(self, a: Actor) -> float:
         self.vtime += 1e-4  # every read makes a little progress, so polling loops terminate
@@ -935,6 +965,15 @@ class Simulation:
 
 def _real_getcwd():
     return os.getcwd()
+
+
+def _real_realpath(p: str) -> str:
+    """realpath through the REAL functions (the interposed ones would yield to the scheduler)."""
+    _tls.harness = getattr(_tls, "harness", 0) + 1
+    try:
+        return os.path.realpath(p)
+    finally:
+        _tls.harness -= 1
 
 
 class _ShuffledScandir:
@@ -1254,6 +1293,7 @@ def _sim_open(file, mode="r", buffering=-1, encoding=None, errors=None, newline=
     if not sim.in_scope(path):
         if sim.record_unscoped:
             sim.unscoped.append((a.id, "open:" + mode, path, None))
+        sim._jail(a, "open:" + mode, path)
         return _real["io.open"](file, mode, buffering, encoding, errors, newline, closefd, opener)
     base = [c for c in mode if c in "rwax"]
     if len(base) != 1:
